@@ -42,6 +42,9 @@ use compio_driver::{DriverType, ProactorBuilder};
 use compio_runtime::Runtime;
 use vcommon::{Args, Report, Rng, Value, json, panics};
 
+#[macro_use]
+#[path = "c14_bufs.rs"]
+mod bufs;
 #[path = "c14_accept.rs"]
 mod accept;
 #[path = "c14_dgram.rs"]
@@ -282,7 +285,7 @@ pub fn errname(e: &io::Error) -> String {
 }
 
 pub fn is_cancelled(e: &io::Error) -> bool {
-    e.raw_os_error() == Some(libc::ECANCELED) || e.kind() == io::ErrorKind::Interrupted && e.raw_os_error().is_none()
+    e.raw_os_error() == Some(libc::ECANCELED)
 }
 
 // ---------------------------------------------------------------- runtime
@@ -329,6 +332,8 @@ pub fn drive<F: Future>(
     fut: F,
 ) -> Option<F::Output> {
     let start = Instant::now();
+    compio_driver::verif::enable(true);
+    let _ = compio_driver::verif::drain();
     rt.enter(|| {
         let waker = rt.waker();
         let mut cx = Context::from_waker(&waker);
@@ -369,6 +374,21 @@ pub fn drive<F: Future>(
                 }
             }
             rt.poll_with(Some(if remaining { Duration::ZERO } else { lim.idle_wait }));
+            // Driver-level completions are progress too (e.g. the inner reads of a
+            // read_exact that has not returned yet).
+            let evs = compio_driver::verif::drain();
+            if std::env::var_os("C14_EVENTS").is_some() {
+                for e in &evs {
+                    if !matches!(e.kind, compio_driver::verif::Kind::PollEnter | compio_driver::verif::Kind::PollExit | compio_driver::verif::Kind::FlushExit) {
+                        eprintln!("  ev {:?}", e);
+                    }
+                }
+            }
+            if evs.iter().any(|e| {
+                matches!(e.kind, compio_driver::verif::Kind::Final | compio_driver::verif::Kind::MultiItem | compio_driver::verif::Kind::Cqe)
+            }) {
+                ctx.tick();
+            }
         }
     })
 }
@@ -429,7 +449,16 @@ fn run_prog(p: &Prog, lim: &Limits) -> Outcome {
 
 fn execute(p: &Prog, lim: &Limits, rep: &mut Report) {
     let pj = p.to_json();
+    let t0 = Instant::now();
     let r = panics::catch(|| run_prog(p, lim));
+    let ms = t0.elapsed().as_millis() as i64;
+    rep.max("slowest_program_ms", ms);
+    if ms > 400 {
+        rep.count("programs_over_400ms", 1);
+        if std::env::var_os("C14_SLOW").is_some() {
+            eprintln!("[c14 slow] {ms} ms: {}", json!({"program": pj}));
+        }
+    }
     let tag = format!("{}/{}/{}", js(&pj, "family"), js(&pj, "transport"), js(&pj, "driver"));
     match r {
         Err(info) => match info.origin() {
@@ -459,6 +488,11 @@ fn execute(p: &Prog, lim: &Limits, rep: &mut Report) {
                 rep.violation(&f.sig, &f.what, pj.clone());
             } else if let Some(r) = ctx.inconclusive.borrow().as_ref() {
                 rep.inconclusive(&format!("{tag}: {r}"));
+                // keep the program of the first few inconclusive cases on stderr for triage
+                static SHOWN: std::sync::atomic::AtomicUsize = std::sync::atomic::AtomicUsize::new(0);
+                if SHOWN.fetch_add(1, std::sync::atomic::Ordering::Relaxed) < 4 {
+                    eprintln!("[c14 inconclusive] {r}: {}", json!({"program": pj}));
+                }
                 if rep.want_sample() {
                     rep.sample(json!({"inconclusive": r, "program": pj}));
                 }
